@@ -69,35 +69,61 @@ fn boundary_structure(rng: &mut Rng, which: usize, side: usize) -> (PDB, String)
         1 => {
             label = "chain-id-length";
             let id = if side == 1 { "AB" } else { "A" };
-            if let Some(c) = p.chains_mut().next() {
+            let k_chains = rng.below(p.chains().count().max(1));
+            if let Some(c) = p.chains_mut().nth(k_chains) {
                 c.set_id(id);
             }
         }
         2 => {
             label = "residue-number";
             let v = pick_i(-999, 9999);
-            if let Some(r) = p.residues_mut().next() {
+            let k_residues = rng.below(p.residues().count().max(1));
+            if let Some(r) = p.residues_mut().nth(k_residues) {
                 r.set_serial_number(v);
             }
         }
         3 => {
             label = "insertion-code-length";
             let ic = if side == 1 { "AB" } else { "A" };
-            if let Some(r) = p.residues_mut().next() {
+            let k_residues = rng.below(p.residues().count().max(1));
+            if let Some(r) = p.residues_mut().nth(k_residues) {
                 r.set_insertion_code(ic);
             }
         }
         4 => {
             label = "conformer-name-length";
             let nm = if side == 1 { "ALAX" } else { "ALA" };
-            if let Some(c) = p.conformers_mut().next() {
+            if rng.chance(1, 2) {
+                // every conformer of one residue (one diagnostic for each of them), preferring a residue with several
+                let mut multi: Vec<usize> = p.residues().enumerate().filter(|(_, r)| r.conformer_count() > 1).map(|(i, _)| i).collect();
+                if multi.is_empty() {
+                    // make one: two more conformers in the first residue
+                    if let Some(r) = p.residues_mut().next() {
+                        for (k, alt) in ["X", "Y"].iter().enumerate() {
+                            let mut c = Conformer::new("GLY", Some(alt), None).expect("conformer");
+                            c.add_atom(Atom::new(false, 900 + k, "", "CA", 1.0, 2.0, 3.0, 1.0, 10.0, "C", 0).expect("atom"));
+                            r.add_conformer(c);
+                        }
+                    }
+                    multi = vec![0];
+                }
+                let pick = *rng.pick(&multi);
+                if let Some(r) = p.residues_mut().nth(pick) {
+                    for c in r.conformers_mut() {
+                        c.set_name(nm);
+                    }
+                }
+            }
+            let k_conformers = rng.below(p.conformers().count().max(1));
+            if let Some(c) = p.conformers_mut().nth(k_conformers) {
                 c.set_name(nm);
             }
         }
         5 => {
             label = "altloc-length";
             let al = if side == 1 { "AB" } else { "A" };
-            if let Some(c) = p.conformers_mut().next() {
+            let k_conformers = rng.below(p.conformers().count().max(1));
+            if let Some(c) = p.conformers_mut().nth(k_conformers) {
                 c.set_alternative_location(al);
             }
         }
@@ -108,28 +134,32 @@ fn boundary_structure(rng: &mut Rng, which: usize, side: usize) -> (PDB, String)
                 3 => ("ABC".to_string(), "x".repeat(42)),
                 _ => ("ABC".to_string(), "x".repeat(41)),
             };
-            if let Some(c) = p.conformers_mut().next() {
+            let k_conformers = rng.below(p.conformers().count().max(1));
+            if let Some(c) = p.conformers_mut().nth(k_conformers) {
                 let _ = c.set_modification((nm, cm));
             }
         }
         7 => {
             label = "atom-name-length";
             let nm = if side == 1 { "ABCDE" } else { "ABCD" };
-            if let Some(a) = p.atoms_mut().next() {
+            let k_atoms = rng.below(p.atoms().count().max(1));
+            if let Some(a) = p.atoms_mut().nth(k_atoms) {
                 let _ = a.set_name(nm);
             }
         }
         8 => {
             label = "atom-serial";
             let v = pick_i(0, 99999).max(0) as usize;
-            if let Some(a) = p.atoms_mut().next() {
+            let k_atoms = rng.below(p.atoms().count().max(1));
+            if let Some(a) = p.atoms_mut().nth(k_atoms) {
                 a.set_serial_number(v);
             }
         }
         9 => {
             label = "charge";
             let v = pick_i(-9, 9);
-            if let Some(a) = p.atoms_mut().next() {
+            let k_atoms = rng.below(p.atoms().count().max(1));
+            if let Some(a) = p.atoms_mut().nth(k_atoms) {
                 a.set_charge(v);
             }
         }
@@ -148,7 +178,8 @@ fn boundary_structure(rng: &mut Rng, which: usize, side: usize) -> (PDB, String)
             label = "coordinate";
             let v = pick_f(-999.999, 9999.999);
             let axis = which % 3;
-            if let Some(a) = p.atoms_mut().next() {
+            let k_atoms = rng.below(p.atoms().count().max(1));
+            if let Some(a) = p.atoms_mut().nth(k_atoms) {
                 let _ = match axis {
                     0 => a.set_x(v),
                     1 => a.set_y(v),
@@ -165,7 +196,8 @@ pub fn run(seed: u64, count: usize, _thorough: bool, out: &mut Out) {
     let tbl = float_table();
     let full = |p: &PDB| snap::pdb(p, &snap::atom);
     // 1. every validated field at, inside and outside both ends of its range
-    for which in 0..15 {
+    // (several structures for each: the value sits at a random place, sometimes at several)
+    for which in (0..15).flat_map(|w| std::iter::repeat(w).take(6)) {
         for side in 0..5 {
             let (p, label) = boundary_structure(&mut rng, which, side);
             let psx = full(&p);
